@@ -542,6 +542,17 @@ def run(chk, replay):
                 chk.oblige("correspondence:lock:%s" % c["id"], False, detail + " case=" + json.dumps(c))
         stale += sum(1 for h in r["hist"] if h["status"] == 1 and h["nodes"] and all(n == 4 for n in h["nodes"]))
         vs = monitor(chk, c, r)
+        if vs and (c.get("resaveEdit") or c.get("bigExtra")):
+            # the scenario families added last (a re-save with another definition, DAGs of hundreds of steps) put two real
+            # processes on the machine's clock: a verdict counts only if the case, run again ALONE, gives it again (a
+            # seeded defect does; vp check 11 saw one unreproducible alarm on a loaded fresh machine)
+            try:
+                r2 = run_harness(binh, [c], par=1)[0]
+                again = {s_ for s_, _ in monitor(chk, c, r2)} if not r2.get("err") else set()
+            except Exception:
+                again = set()
+            vs = [(s_, w_) for s_, w_ in vs if s_ in again]
+            chk.stats = dict(chk.stats or {}, confirmed_alone=(chk.stats or {}).get("confirmed_alone", 0) + 1)
         sfx = (":resaved-with-" + c["resaveEdit"]) if c.get("resaveEdit") else ""
         big = ":big-dag" if c.get("bigExtra") else ""
         for sig, what in vs:
